@@ -87,7 +87,12 @@ class IsaAbs:
     def __init__(self, prog: PyProgram):
         self.prog = prog
         self.mod = prog.module(isa.OPTABLE)
-        self.shared = {"class_attr_cache": {}, "natives": {"copy": _Copy}}
+        self._label_counter = [0]
+
+        def _new_label() -> Term:
+            self._label_counter[0] += 1
+            return Term("Label", (self._label_counter[0],), {})
+        self.shared = {"class_attr_cache": {}, "natives": {"copy": _Copy, "LowLevelILLabel": _new_label}}
         self.ev = AbsEval(prog, self.mod, {}, [50_000_000], None, self.shared)
         table = prog.value(isa.OPTABLE, "OPCODES")
         self.opcodes = {k: self.ev.from_term(v) for k, v in table.items()}
